@@ -74,6 +74,11 @@ def build_plans(world):
         model = gen.model_of(world)
         ops.append({"op": "mergeHistory", "h": 0, "o": 4, "tag": "fold", "first_is_main": bool(model and model["main"])})
         ops.append({"op": "dump", "k": 4, "ext": False, "tag": "d_fold"})
+        # the members are inputs of the fold, not consumed by it: the same history folded once more gives the same
+        ops.append({"op": "dumpHistory", "h": 0, "ext": False, "tag": "d_hist_after"})
+        ops.append({"op": "mergeHistory", "h": 0, "o": 5, "tag": "fold2", "first_is_main": bool(model and model["main"])})
+        ops.append({"op": "dump", "k": 5, "ext": False, "tag": "d_fold2"})
+        ops.append({"op": "free", "k": 5})
         for n, p in enumerate(model["consulted"] if model else []):
             ops.append({"op": "readFile", "o": 10 + n, "path": p, "delim": read["delim"], "comment": read["comment"], "tag": "single%d" % n})
             ops.append({"op": "dump", "k": 10 + n, "ext": False, "tag": "d_single%d" % n})
@@ -149,6 +154,14 @@ def check(world, plans, results):
                     if sc.entries != h[n][1].entries:
                         v.fail("history:member", "history member %d (%s) differs from an independent read of that file" % (n, p))
                         break
+            # the fold does not use its inputs up
+            ha = tagged(plan, res, "d_hist_after")
+            if ha is not None and v.ok:
+                if [(p_, c_.entries) for p_, c_, s_ in members_view(ha)] != [(p_, c_.entries) for p_, c_, s_ in h]:
+                    v.fail("fold:inputs", "after merging the history its members no longer hold what they held before")
+                f2 = tagged(plan, res, "d_fold2")
+                if f2 is not None and canon(strip_volatile(f2)) != canon(strip_volatile(tagged(plan, res, "d_fold"))):
+                    v.fail("fold:inputs", "merging the same history a second time gives a different result")
             # (iii) fold of the history = merged result
             fold = tagged(plan, res, "fold")
             if fold["rc"] == 0 and v.ok:
